@@ -491,6 +491,29 @@ func exclusiveC10(c *Ctx) {
 		r.add("PATH", "the key is deleted only if nobody attached to the successor", okd, pickS(okd, "delete reached only through successor.count == 0", "the key can be deleted while calls are attached to the successor (they would be stranded, and a fresh call could run concurrently)"), dels[0])
 		cleared := P.Before(r.fn, an.Is(a.work), dels[0])
 		r.add("PATH", "per-key state is removed only after the work returned", cleared, "delete dominated by the work call", dels[0])
+		// ... and whenever nobody attached: from the count test, its zero edge leads to the delete under no further
+		// condition ("when nothing is pending no per-key state remains")
+		if okd {
+			b := stripNotV(ifz[0].Cond).(*ssa.BinOp)
+			zeroWhenTrue := b.Op == token.EQL
+			if negz[0] {
+				zeroWhenTrue = !zeroWhenTrue
+			}
+			ts := 1
+			if zeroWhenTrue {
+				ts = 0
+			}
+			start := ifz[0].Block().Succs[ts]
+			always := false
+			if len(start.Instrs) > 0 {
+				// no way from the zero edge to the end of the epilogue (the item's unlock / the return) that avoids the delete
+				always = !P.PathExists(r.fn, start.Instrs[0], an.IsReturn, an.Is(dels[0]), nil) || start.Instrs[0] == dels[0]
+				if start.Instrs[0] == dels[0] {
+					always = true
+				}
+			}
+			r.add("PATH", "an idle key leaves no state behind", always, pickS(always, "successor.count == 0 always reaches delete(e.work, key)", "with nobody attached to the successor the key's entry can be left in the map (a further condition guards the delete): per-key state remains although nothing is pending"), dels[0])
+		}
 	}
 }
 
@@ -907,6 +930,56 @@ func rateLimitTimer(c *Ctx) {
 		}
 	}
 	q.add("WR", "the padding timer belongs to one execution", ok, pickS(ok, "time.NewTimer is called by the work wrapper itself and never Reset", "the rate limiter's timer is created outside the per-execution wrapper or re-armed with Reset: executions of different keys sharing the option would wait on one timer"), news...)
+	// the wrapped work runs *inside* the wrapper: a direct call in the wrapper's own body (not on a goroutine that the
+	// wrapper may stop waiting for - say when its context ends), so that "the wrapper returned" implies "the work
+	// returned", which is what Exclusive takes as the end of the execution
+	var workCalls, gos []ssa.Instruction
+	var inWrapper []bool
+	for _, fn := range allNested(q.fn) {
+		gos = append(gos, an.AllInstrs(fn, func(in ssa.Instruction) bool { _, isGo := in.(*ssa.Go); return isGo })...)
+		for _, in := range an.AllInstrs(fn, func(in ssa.Instruction) bool {
+			cc := an.CallCommonOf(in)
+			if cc == nil || cc.IsInvoke() || cc.StaticCallee() != nil {
+				return false
+			}
+			if _, isB := cc.Value.(*ssa.Builtin); isB {
+				return false
+			}
+			// the callee is the wrapped work: a parameter of function type of an enclosing literal
+			for _, sv := range P.Sources(cc.Value) {
+				if prm, isP := sv.(*ssa.Parameter); isP && prm.Parent() != fn {
+					if _, isSig := prm.Type().Underlying().(*types.Signature); isSig {
+						return true
+					}
+				}
+			}
+			return false
+		}) {
+			workCalls = append(workCalls, in)
+			_, isCall := in.(*ssa.Call)
+			// the wrapper is made for that one work function: it is a literal of the function that receives the work as
+			// its parameter (a wrapper made once per option and handed the work through a shared variable runs whichever
+			// work was wrapped last - on any key)
+			perWork := false
+			for _, sv := range P.Sources(an.CallCommonOf(in).Value) {
+				if prm, isP := sv.(*ssa.Parameter); isP {
+					perWork = prm.Parent() == fn.Parent()
+				}
+			}
+			if !perWork {
+				isCall = false
+			}
+			// the wrapper: the literal that takes resolve (its one parameter, of function type)
+			isW := len(fn.Params) == 1
+			if isW {
+				_, isW = fn.Params[0].Type().Underlying().(*types.Signature)
+			}
+			inWrapper = append(inWrapper, isCall && isW && !P.InCycle(in))
+		}
+	}
+	okw := len(workCalls) == 1 && inWrapper[0] && len(gos) == 0
+	q.add("PATH", "the rate-limited work runs inside the wrapper, which returns only after it", okw,
+		pickS(okw, "value(resolve) is a plain call in the wrapper's own body; no goroutine is started", "the wrapped work is not (only) called directly in the wrapper - e.g. it runs on a goroutine the wrapper can stop waiting for: the wrapper, and with it the execution as Exclusive sees it, can end while the work is still running, and the next work for the key overlaps it"), workCalls...)
 }
 
 // sameChanVar: the tested value is a read of the variable the channel operand was read from (through direction
